@@ -1,10 +1,10 @@
 SPECIFICATION GSpec
 CONSTANTS
-  MaxScript = 4
+  MaxScript = 2
   MaxSpurious = 1
   FORWARD_WAKER = TRUE
   READY_DRAINS = TRUE
-  FILTER_MODE = "none"
+  FILTER_MODE = "filter"
   MODE = "sched"
   MaxTok = 0
   MaxPairTok = 0
